@@ -224,6 +224,45 @@ theorem merge_constant_projection_under_outer_join_unsound :
         (leftJoin (fun _ _ => some true) [[.int 1]] (project (fun _ => [.int 7]) []) 1) = [[.null]] ∧
     project (fun _ => [Val.int 7]) (leftJoin (fun _ _ => some true) [[.int 1]] [] 1) = [[.int 7]] := by decide
 
+-- ------------------------------------------------------------------------------------------ unnest_subqueries
+/-- `decorrelate` of a correlated scalar subquery whose projection contains COUNT: the LEFT JOIN + COALESCE form
+    returns the subquery's value for EVERY outer row and every table, provided (1) the fallback is the projection
+    evaluated on the EMPTY group (COUNT -> 0, other aggregates -> NULL) and (2) the projection is not NULL on a
+    non-empty group unless the fallback is NULL too -/
+theorem decorrelate_scalar_aggregate (proj : Table → Val) (fallback : Val) (on : Row → Row → B3) (a : Row) (r : Table)
+    (hempty : fallback = proj [])
+    (hnn : ∀ m : Table, m ≠ [] → (proj m).isNull = true → fallback = .null) :
+    scalarDecorrelated proj fallback on a r = scalarSubq proj on a r := by
+  unfold scalarDecorrelated scalarSubq coalesceVal
+  cases hm : matchesOf on a r with
+  | nil => simp [Val.isNull, hempty]
+  | cons b bs =>
+    simp only [List.isEmpty_cons, Bool.false_eq_true, if_false]
+    split
+    · rename_i hnull
+      have := hnn (b :: bs) (by simp) hnull
+      rw [this]
+      cases hp : proj (b :: bs) <;> simp_all [Val.isNull]
+    · rfl
+
+example : scalarDecorrelated (fun m => .int (m.length + 1)) (.int 1) (fun a b => eq3 (col 0 a) (col 0 b)) [.int 5] [[.int 1]]
+    = .int 1 := by decide
+
+/-- NECESSITY of hypothesis (1) (the seeded regression "fallback is always the constant 0"): projection
+    COUNT(*) + 1, outer row without a match: the subquery yields 1, COALESCE(NULL, 0) yields 0 -/
+theorem decorrelate_constant_zero_fallback_unsound :
+    scalarSubq (fun m => .int (m.length + 1)) (fun a b => eq3 (col 0 a) (col 0 b)) [.int 5] [[.int 1]] = .int 1 ∧
+    scalarDecorrelated (fun m => .int (m.length + 1)) (.int 0) (fun a b => eq3 (col 0 a) (col 0 b)) [.int 5] [[.int 1]]
+      = .int 0 := by decide
+
+/-- clean-tree finding (hypothesis (2) is not checked by the code): NULLIF(COUNT(*), 2) is NULL on an existing group
+    of two rows; COALESCE then replaces that legitimate NULL by the fallback NULLIF(0, 2) = 0 -/
+theorem decorrelate_null_of_existing_group_unsound :
+    scalarSubq (fun m => if m.length = 2 then .null else .int m.length) (fun a b => eq3 (col 0 a) (col 0 b))
+        [.int 1] [[.int 1], [.int 1]] = .null ∧
+    scalarDecorrelated (fun m => if m.length = 2 then .null else .int m.length) (.int 0)
+        (fun a b => eq3 (col 0 a) (col 0 b)) [.int 1] [[.int 1], [.int 1]] = .int 0 := by decide
+
 -- ------------------------------------------------------------------------------------------ eliminate_joins
 /-- LEFT join on a key that is unique in the joined source, none of whose columns is used: the join disappears.
     Stated for ALL tables; uniqueness enters as "at most one match per left row" … -/
